@@ -282,18 +282,9 @@ func c18R3(a *A) {
 				return
 			}
 			n++
-			// a sort.Sort call on (a conversion of) the stored slice dominates the store
-			sorted := false
-			instrs(p, func(i2 ssa.Instruction) {
-				c, ok := i2.(*ssa.Call)
-				if !ok || !staticCalleeIs(c.Common(), "sort.Sort") {
-					return
-				}
-				arg := strip(c.Common().Args[0])
-				if arg == mu.Value && instrDominates(c, mu) {
-					sorted = true
-				}
-			})
+			// a sort.Sort call on (a conversion of) the stored slice dominates the store - here, or in the in-package function
+			// that produced the slice (before each of its returns)
+			sorted := sortedBefore(mu.Value, mu, 0)
 			a.check(sorted, rule, fmt.Sprintf("sorted@parseMysql56GTIDSet#%d", n), w.posOf(mu), "interval list sorted before it is stored",
 				"the parser stores an interval list without sorting it: Contains/ContainsGTID/AddGTID scan assuming sorted intervals and give wrong answers for text such as 'uuid:5-6:1-2'")
 		})
@@ -600,4 +591,70 @@ func c18R6(a *A) {
 	if nb == 0 {
 		a.hold(rule, "endpoint-lookup@Contains", w.pos(f.Pos()), "no interval accepted by point lookups of its end points")
 	}
+}
+
+// sortedBefore: v has been passed to sort.Sort / sort.Slice* / slices.Sort* at a point dominating `at`, or v is a result of
+// an in-package call and the corresponding result is sorted before every return of the callee that yields a non-nil slice.
+func sortedBefore(v ssa.Value, at ssa.Instruction, depth int) bool {
+	if depth > 3 {
+		return false
+	}
+	v = strip(v)
+	f := at.Parent()
+	found := false
+	instrs(f, func(in ssa.Instruction) {
+		c, ok := in.(*ssa.Call)
+		if !ok || len(c.Common().Args) == 0 {
+			return
+		}
+		cal := c.Common().StaticCallee()
+		if cal == nil || cal.Pkg == nil {
+			return
+		}
+		pp := cal.Pkg.Pkg.Path()
+		if !(pp == "sort" && (cal.Name() == "Sort" || cal.Name() == "Stable" || cal.Name() == "Slice" || cal.Name() == "SliceStable") || pp == "slices" && strings.HasPrefix(cal.Name(), "Sort")) {
+			return
+		}
+		arg := strip(c.Common().Args[0])
+		if mi, ok := arg.(*ssa.MakeInterface); ok {
+			arg = strip(mi.X)
+		}
+		if arg == v && instrDominates(c, at) {
+			found = true
+		}
+	})
+	if found {
+		return true
+	}
+	ex, ok := v.(*ssa.Extract)
+	var call *ssa.Call
+	idx := 0
+	if ok {
+		call, _ = ex.Tuple.(*ssa.Call)
+		idx = ex.Index
+	} else if c, isC := v.(*ssa.Call); isC {
+		call = c
+	}
+	if call == nil {
+		return false
+	}
+	cal := call.Common().StaticCallee()
+	if cal == nil || cal.Blocks == nil || cal.Pkg != f.Pkg {
+		return false
+	}
+	n := 0
+	for _, ret := range returnsOf(cal) {
+		if idx >= len(ret.Results) {
+			return false
+		}
+		rv := strip(ret.Results[idx])
+		if isNilConst(rv) {
+			continue // failure exits hand out no list
+		}
+		n++
+		if !sortedBefore(rv, ret, depth+1) {
+			return false
+		}
+	}
+	return n > 0
 }
